@@ -19,8 +19,9 @@
      ReconsumptionBound   no token index is consumed more than R times              (C16)
      LookupIsInnermost    a lookup answers with the innermost binding               (C04)
      ClassFrozenAtLex     the class of an ID/TYPEID token is the lookup made for it (C04)
-     LookaheadSafe        in an accepted program a name is never registered while an identifier
-                          token with that spelling sits unconsumed in the buffer    (C04)
+     LookaheadSafe        in an accepted program a name is never registered while a token with that
+                          spelling and the OTHER class (ID for a typedef, TYPEID for an object)
+                          sits unconsumed in the buffer                             (C04)
      ScopeBraceAgreement  #scopes = 1 + #'{' lexed - #'}' lexed after every token      (C04,C18)
      RegisterClash        a registration raises iff the scope holds the other kind
      FreshStart           parse() starts from the initial front-end state           (C12)
@@ -129,9 +130,12 @@ Reset == /\ Is("reset") /\ ~failed
          /\ Ev.frm = idx /\ Ev.to <= idx /\ Ev.to >= 0 /\ idx' = Ev.to            \* ResetBackwards
          /\ Adv /\ UNCHANGED <<buf, uses, stk, brk, bd, pend, lst, eof, failed, errloc, unsafe>>
 Reg  == /\ Is("reg") /\ ~failed /\ pend = <<"none">>
-        /\ Ev.d = Len(stk) /\ Ev.bl = Len(buf) /\ Ev.ix = idx
-        /\ unsafe' = (unsafe \/ \E j \in (idx+1)..Len(buf) :                      \* LookaheadSafe (judged at End)
-                                   buf[j][1] \in {"ID", "TYPEID"} /\ buf[j][2] = Ev.name)
+        /\ Ev.d = Len(stk) /\ Ev.ix = idx       \* (the logged buffer length is representation - an end marker may or may not be stored - and is not constrained)
+        \* LookaheadSafe (judged at End): no token of that name has been lexed ahead with the OTHER class.  (A token of
+        \* the same class is harmless: when '(' type-name ')' is parsed a second time after a reset, the names it
+        \* declares - enumerators - are registered again while their later occurrences are already buffered.)
+        /\ unsafe' = (unsafe \/ \E j \in (idx+1)..Len(buf) :
+                                   buf[j][2] = Ev.name /\ buf[j][1] = (IF Ev.t THEN "ID" ELSE "TYPEID"))
         /\ IF <<Ev.name, ~Ev.t>> \in stk[Len(stk)]                                \* RegisterClash
            THEN Ev.raised /\ failed' = TRUE /\ UNCHANGED stk
            ELSE ~Ev.raised /\ stk' = [stk EXCEPT ![Len(stk)] = @ \cup {<<Ev.name, Ev.t>>}] /\ UNCHANGED failed
@@ -145,7 +149,7 @@ End  == /\ Is("end") /\ l = Len(T.ev)
                      /\ eof /\ idx = Len(buf) - 1
                      /\ Len(stk) = 1 /\ Ev.depth = 1
                      /\ \A j \in 1..Len(buf) : buf[j][1] # "PPHASH")
-        /\ Ev.bl = Len(buf) /\ (~failed => Ev.ix = idx)
+        /\ (~failed => Ev.ix = idx)
         /\ (errloc # <<>> =>                                                       \* ErrorLocExact (C11)
               LET pfx == errloc[1] \o ":" \o ToString(errloc[2]) \o ":" \o ToString(errloc[3]) \o ": "
               IN Len(Ev.msg) >= Len(pfx) /\ SubSeq(Ev.msg, 1, Len(pfx)) = pfx)
